@@ -79,5 +79,7 @@ Complete ==
 Export == PrintT(<<"PROG", ToJson(Expected(inp.decl, inp.params))>>)
 
 Pool3 == <<"Ca", "Cb", "Cc">>
+\* component names that are prefixes of each other (name matching must be exact)
+PoolP == <<"Ca", "Cab", "Caba">>
 Pool4 == <<"Ca", "Cb", "Cc", "Cd">>
 =============================================================================
